@@ -200,10 +200,11 @@ type ProxyOpts struct {
 	DefaultDomains   []string
 	DefaultAddresses []string
 	SignerKey        string
-	Env              map[string]string // SSO_CONFIG_* template variables (lower-case keys without prefix)
-	Scheme           string            // default "http"
-	Dir              string            // scratch directory for the YAML file
-	ViaEnv           bool              // boot like cmd/sso-proxy: settings through environment variables + proxy.LoadConfig + Validate
+	Env              map[string]string          // SSO_CONFIG_* template variables (lower-case keys without prefix)
+	Scheme           string                     // default "http"
+	Dir              string                     // scratch directory for the YAML file
+	ViaEnv           bool                       // boot like cmd/sso-proxy: settings through environment variables + proxy.LoadConfig + Validate
+	AfterLoad        func(*proxy.Configuration) // called between SetUpstreamConfigs and New (a driver with a shim may adjust the resolved configuration)
 }
 
 // ProxyWorld is a real sso-proxy built by proxy.New around a fake authenticator.
@@ -326,6 +327,9 @@ func BuildProxy(o ProxyOpts, auth *FakeAuth) (*ProxyWorld, error) {
 
 	if err := proxy.SetUpstreamConfigs(&cfg.UpstreamConfigs, cfg.SessionConfig.CookieConfig, &cfg.ServerConfig); err != nil {
 		return nil, err
+	}
+	if o.AfterLoad != nil {
+		o.AfterLoad(&cfg)
 	}
 	sc, err := statsd.New("127.0.0.1:8125")
 	if err != nil {
